@@ -104,3 +104,52 @@ pub fn wire(args: &[&str]) -> Option<Vec<String>> {
     let data = server.join().ok()?;
     Some(vec![hex(&data)])
 }
+
+
+/// `wire2 <kind s|a> <message 1> <message 2>`: two messages on one connection (as a pooled transport does), captured by
+/// a loopback sink: the codec must start every message afresh
+pub fn wire2(args: &[&str]) -> Option<Vec<String>> {
+    let kind = *args.first()?;
+    let m1 = unhex(args.get(1)?)?;
+    let m2 = unhex(args.get(2)?)?;
+    let listener = TcpListener::bind("127.0.0.1:0").ok()?;
+    let port = listener.local_addr().ok()?.port();
+    let server = std::thread::spawn(move || {
+        use std::io::Write;
+        let (mut s, _) = listener.accept().unwrap();
+        s.write_all(b"220 sink\r\n250 sink\r\n250 queued\r\n250 queued\r\n").unwrap();
+        let mut got = Vec::new();
+        let mut byte = [0u8; 1];
+        while !got.ends_with(b"\r\n") {
+            if s.read(&mut byte).unwrap() == 0 {
+                return Vec::new();
+            }
+            got.push(byte[0]);
+        }
+        let mut data = Vec::new();
+        s.read_to_end(&mut data).unwrap();
+        data
+    });
+    let hello = lettre::transport::smtp::extension::ClientId::Domain("h".into());
+    match kind {
+        "s" => {
+            let mut c = lettre::transport::smtp::client::SmtpConnection::connect(("127.0.0.1", port), Some(std::time::Duration::from_secs(5)), &hello, None, None).ok()?;
+            c.message(&m1).ok()?;
+            c.message(&m2).ok()?;
+            drop(c);
+        }
+        "a" => {
+            let rt = tokio::runtime::Builder::new_current_thread().enable_all().build().ok()?;
+            rt.block_on(async {
+                let mut c = lettre::transport::smtp::client::AsyncSmtpConnection::connect_tokio1(("127.0.0.1", port), Some(std::time::Duration::from_secs(5)), &hello, None, None).await.ok()?;
+                c.message(&m1).await.ok()?;
+                c.message(&m2).await.ok()?;
+                drop(c);
+                Some(())
+            })?;
+        }
+        _ => return None,
+    }
+    let data = server.join().ok()?;
+    Some(vec![hex(&data)])
+}
